@@ -150,6 +150,55 @@ T("C03", "twin-execute-or-dispatch", F, _XL_TEST, "        if inject == InjectEx
 T("C03", "twin-execute-tuple-exit", F, "        if not d or d == b\"\\x00\":\n            break\n", "        if d in (b\"\", b\"\\x00\"):\n            break\n")
 M("C03", "execute-set-misses-remote-thread", F, _XL_TEST, "        with_arguments = {InjectExecutor.CreateThread_}\n        if inject in with_arguments:\n", "C03.R7")
 M("C03", "execute-int-keys-never-match", F, _XL_TEST, "        if inject in {6, 7}:\n", "C03.R7")
+# start-address arguments (offset, module, function) of the CreateThread_ / CreateRemoteThread_ executors: which read is
+# shown where, and how the 2-byte offset is decoded - whatever spells the decode / the formatting
+_XL_ARGS = (
+    "            s4 = u16be(p.read(2))\n"
+    "            length = u32be(p.read(4))\n"
+    "            s2 = p.read(length).rstrip(b\"\\x00\")\n"
+    "            length = u32be(p.read(4))\n"
+    "            s3 = p.read(length).rstrip(b\"\\x00\")\n"
+    "            s = \"{}!{}\".format(s2.decode(), s3.decode())\n"
+    "            if s4:\n"
+    "                s += \"+0x{:x}\".format(s4)\n"
+    "            ret.append('{} \"{}\"'.format(inject.name.rstrip(\"_\"), s))\n"
+)
+_XL_STRUCT = (F, "import io\n", "import io\nimport struct\n")
+_XL_HEAD = "    ret: List[str] = []\n    p = io.BytesIO(data)\n    while True:\n        d = p.read(1)\n        if not d or d == b\"\\x00\":\n"
+
+
+def _xl_helper(offset="u16be(p.read(2))", shown="offset", pair="{module}!{function}"):
+    """f-strings, a local length-prefixed-string helper, descriptive names"""
+    return [
+        (F, _XL_HEAD, "\n    def read_asciiz(p: BinaryIO) -> str:\n        length = u32be(p.read(4))\n        return p.read(length).rstrip(b\"\\x00\").decode()\n\n" + _XL_HEAD),
+        (F, _XL_ARGS,
+         f"            offset = {offset}\n"
+         "            module = read_asciiz(p)\n"
+         "            function = read_asciiz(p)\n"
+         f"            target = f\"{pair}\"\n"
+         "            if offset:\n"
+         f"                target += f\"+0x{{{shown}:x}}\"\n"
+         "            ret.append(f'{inject.name.rstrip(\"_\")} \"{target}\"')\n"),
+    ]
+
+
+T("C03", "twin-execute-fstring-asciiz-helper", F, "", "", edits=_xl_helper())
+T("C03", "twin-execute-offset-from-bytes", F, "            s4 = u16be(p.read(2))\n", "            s4 = int.from_bytes(p.read(2), byteorder=\"big\", signed=False)\n")
+T("C03", "twin-execute-offset-struct-unpack", F, "", "", edits=[_XL_STRUCT, (F, "            s4 = u16be(p.read(2))\n", "            (s4,) = struct.unpack(\">H\", p.read(2))\n")])
+T("C03", "twin-execute-offset-decoded-late", F, "", "", edits=[
+    (F, "            s4 = u16be(p.read(2))\n            length = u32be(p.read(4))\n", "            raw_offset = p.read(2)\n            length = u32be(p.read(4))\n"),
+    (F, "            s = \"{}!{}\".format(s2.decode(), s3.decode())\n", "            s = \"{}!{}\".format(s2.decode(), s3.decode())\n            s4 = u16be(raw_offset)\n"),
+])
+T("C03", "twin-execute-percent-format-conditional", F,
+  "            s = \"{}!{}\".format(s2.decode(), s3.decode())\n            if s4:\n                s += \"+0x{:x}\".format(s4)\n",
+  "            s = \"%s!%s\" % (s2.decode(), s3.decode()) + (\"+0x%x\" % s4 if s4 != 0 else \"\")\n")
+M("C03", "execute-offset-from-bytes-little", F, "            s4 = u16be(p.read(2))\n", "            s4 = int.from_bytes(p.read(2), \"little\")\n", "C03.R7")
+M("C03", "execute-offset-struct-little-endian", F, "", "", "C03.R7", edits=[_XL_STRUCT, (F, "            s4 = u16be(p.read(2))\n", "            (s4,) = struct.unpack(\"<H\", p.read(2))\n")])
+M("C03", "execute-offset-signed", F, "            s4 = u16be(p.read(2))\n", "            s4 = int.from_bytes(p.read(2), \"big\", signed=True)\n", "C03.R7")
+M("C03", "execute-helper-shows-length-as-offset", F, "                s += \"+0x{:x}\".format(s4)\n", "                s += \"+0x{:x}\".format(length)\n", "C03.R7")
+M("C03", "execute-helper-offset-little-endian-late", F, "", "", "C03.R7", edits=_xl_helper(offset="int.from_bytes(p.read(2), \"little\")"))
+M("C03", "execute-module-function-swapped", F, "            s = \"{}!{}\".format(s2.decode(), s3.decode())\n", "            s = \"{}!{}\".format(s3.decode(), s2.decode())\n", "C03.R7")
+M("C03", "execute-fstring-function-first", F, "", "", "C03.R7", edits=_xl_helper(pair="{function}!{module}"))
 T("C03", "twin-inject-steps-name-loop", F, _PI,
   "    for name in (\"append\", \"prepend\"):\n        d = p.read(4)\n        if not d:\n            continue\n        steps.append((name, p.read(u32be(d))))\n    return steps\n")
 M("C03", "inject-steps-names-swapped", F, _PI,
